@@ -179,6 +179,19 @@ CHECKS = {
              'an Error: line without a traceback.',
         note='The harness applies the faults, so it knows the damage. Metadata-only scanning may deliver a damaged message '
              'with its own bytes (damage invisible in that mode; C17). Prefix failures may be any exception type.'),
+    'C13': dict(
+        level='model_checking', design='DESIGN.md §4 C13',
+        technique='stateless exhaustive exploration (E1) of ALL operation histories up to length 3 (thorough 4, 5 for one '
+                  'configuration) over 17 operations (decode / failing decode / encode / query / render / re-wire on a '
+                  '9-message pool using 6 table groups) on one decoder, one encoder and the process-wide table cache with '
+                  'limits forced to 1, 2, 3 and compiled cache off / 1; histories are deliberately NOT merged; real tables at '
+                  'the real limit 50 with > 50 groups loaded in rotated orders',
+        text='Every operation of every history must give exactly the observation it gives as the first action of a fresh '
+             'process (golden, computed in subprocesses and required to be reproducible); the pool pairs the same descriptor '
+             'list under table versions that define an element differently, with and without local tables, a 225255 marker '
+             'followed by plain use of the element, compressed data and failing decodes.',
+        note='Trusted: fresh-process goldens. The histories run on a reduced copy of the bundled tables (same rows) to keep a '
+             'table-group load at ~1 ms; histories longer than 4 (5) operations are beyond the bound.'),
     'C14': dict(
         level='model_checking', design='DESIGN.md §4 C14',
         technique='exhaustive enumeration: every Table B/D entry of every bundled table version; ALL FM-94-well-formed '
